@@ -71,7 +71,15 @@ func cmdSelftest(args []string) int {
 			scratch := filepath.Join(dir, "repo")
 			out := filepath.Join(dir, "out")
 			os.MkdirAll(out, 0o755)
-			if b, err := exec.Command("cp", "-r", repoDir, scratch).CombinedOutput(); err != nil {
+			// the mutant is applied to the COMMITTED tree (git archive HEAD): self-tests are then
+			// independent of uncommitted experiments in the working tree (e.g. a seeded change
+			// applied for a check); without a git directory the working tree is copied
+			copyCmd := exec.Command("cp", "-r", repoDir, scratch)
+			if _, err := os.Stat(filepath.Join(repoDir, ".git")); err == nil && os.Getenv("GOVC_SELFTEST_WORKTREE") == "" {
+				os.MkdirAll(scratch, 0o755)
+				copyCmd = exec.Command("sh", "-c", "git -C '"+repoDir+"' archive HEAD | tar -x -C '"+scratch+"'")
+			}
+			if b, err := copyCmd.CombinedOutput(); err != nil {
 				fmt.Printf("selftest %s: copy failed: %s\n", filepath.Base(j.file), b)
 				mu.Lock()
 				bad++
